@@ -233,8 +233,16 @@ def role_fns(meta):
                 if f2 is not None and f2.get("output") == "bool" and traverse.enum_matches(f2, OEXPR):
                     out["modifies"] = f2
     for fn in cands:
-        if fn.get("output") == OEXPR and fn.get("inputs") == [EXPR] and any(callee(n) == fn["path"] for n in walk(fn["body"])):
-            out["convert"] = fn
+        if fn.get("output") == OEXPR and fn.get("inputs") == [EXPR]:
+            # recursive directly or through a boxing helper (`lower_boxed(inner)` -> `lower(*inner)`)
+            direct = any(callee(n) == fn["path"] for n in walk(fn["body"]))
+            via = False
+            for (c2, n2) in hirq.call_sites(fn["body"]):
+                h = meta.fn(c2) if isinstance(c2, str) else None
+                if h is not None and h is not fn and any(callee(x) == fn["path"] for x in walk(h["body"])):
+                    via = True
+            if (direct or via) and traverse.enum_matches(fn, EXPR):
+                out["convert"] = fn
     generic = set(item[0]["path"] for item in generic_traversals(meta, [OPTIMIZE], [EXPR, OEXPR])[0])
     for fn in cands:
         if fn["path"] in generic or fn is out["convert"]:
@@ -513,9 +521,15 @@ def unroll(rep, meta, sfx):
             r.violation("unroll-reintroduces:" + ",".join(sorted(bad)), where(arm["body"]),
                         "unroll builds %s, which the conversion cannot represent" % sorted(bad))
     # unroll must visit every node: it must be applied through the bottom-up traversal
-    if not any(callee(n) == EXPR + "::map_bottom_up" or callee(n) == EXPR + "::map_top_down" for n in walk(un["body"])):
+    # the traversal call is in the function that holds the match, or in the pass function that hands the matching
+    # function to the traversal (`expr.map_bottom_up(unroll_expr)`)
+    hosts = [un] + [g for g in meta.bodies if g is not un and g.get("body") is not None and not g.get("exp")
+                    and "::tests::" not in g["path"] and any(
+                        kind(x) == "Path" and x.get("res") == "def" and x.get("path") == un["path"] for x in walk(g["body"]))]
+    trav_calls = [callee(n) for h in hosts for n in walk(h["body"]) if kind(n) in ("Call", "MethodCall")]
+    if not any(x == EXPR + "::map_bottom_up" or x == EXPR + "::map_top_down" for x in trav_calls):
         r.violation("unroll-not-traversing", where(un["body"]), "unroll is not applied through a generic traversal")
-    elif not any(callee(n) == EXPR + "::map_bottom_up" for n in walk(un["body"])):
+    elif not any(x == EXPR + "::map_bottom_up" for x in trav_calls):
         r.violation("unroll-not-postorder", where(un["body"]),
                     "the pass that eliminates variants runs top-down: a top-down map never re-examines the root of what "
                     "the closure returns, and `e{1}` returns its operand unchanged, so `(\"x\"{2}){1}` keeps a RepExact "
